@@ -20,7 +20,7 @@ ID = "C16"
 LEVEL = "exploration"
 RULE = (
     "Hypothesis-generated cases: database size n (0, 1, or log-uniform up to the tier's bound), auto_index on/off, flush_on_insert on/off (off: byte oracle on the whole file after close), then 3-10 steps drawn from insert (single), insert_multiple (1-4 points), in-order or "
-    "out-of-order times, compact or default prefixes, interleaved with early-stopping reads (get/contains matching row 0), counts, len and reindex; each insert is executed on the big database and on an empty twin "
+    "out-of-order times, compact or default prefixes, interleaved with early-stopping reads (get/contains matching row 0), counts, len, reindex and close+reopen, occasionally one sized batch of 1000-1100 points, default or named 'unix' csv dialect; each insert is executed on the big database and on an empty twin "
     "under the I/O recorder. Non-trivial = an insert that directly follows a read which stopped mid-file on a database of >= 100 rows, or an out-of-order insert on a database of >= 100 rows; distinct by (n, step list)."
 )
 ASSUMPTIONS = ["I/O is observed at the level of the calls tinyflux.storages makes on its file objects and on os/shutil (audit hook reports calls that bypass the proxies)"]
@@ -28,13 +28,13 @@ ASSUMPTIONS = ["I/O is observed at the level of the calls tinyflux.storages make
 FORBIDDEN = ("read", "readline", "next", "mktemp", "replace", "rename", "remove", "move", "os.truncate")
 
 
-def write_rows(path, n):
+def write_rows(path, n, dialect=None):
     """Pre-populate with an independent writer: n rows in the documented layout, times increasing by one second."""
     from datetime import timedelta
 
     t0 = gen.T0 - timedelta(days=365)
     with open(path, "w", newline="", encoding="utf-8") as f:
-        w = csv.writer(f)
+        w = csv.writer(f, **({"dialect": dialect} if dialect else {}))
         for i in range(n):
             w.writerow([(t0 + timedelta(seconds=i)).replace(tzinfo=None).isoformat(), "m1", "_tag_i", str(i), "_tag_pad", "p" * 40, "_field_v", str(float(i))])
 
@@ -46,14 +46,17 @@ def cases(draw, nmax):
     n = draw(st.one_of(st.sampled_from([0, 1, 100, 300]), st.floats(0, math.log(nmax)).map(lambda x: int(math.exp(x)))))
     steps = []
     for _ in range(draw(st.integers(3, 10))):
-        k = draw(st.sampled_from(["insert", "insert", "insert_multiple", "early_get", "early_contains", "count", "len", "reindex", "insert_ooo"]))
+        k = draw(st.sampled_from(["insert", "insert", "insert", "insert_multiple", "insert_multiple", "early_get", "early_get", "early_contains", "early_contains", "count", "count", "len", "len", "reindex", "reindex", "insert_ooo", "insert_ooo", "reopen", "reopen", "insert_bulk"]))
         if k in ("insert", "insert_ooo"):
             steps.append([k, draw(gen.points()), draw(st.booleans())])
         elif k == "insert_multiple":
             steps.append([k, draw(st.lists(gen.points(), min_size=1, max_size=4)), draw(st.booleans()), draw(st.booleans())])
+        elif k == "insert_bulk":
+            # one large, sized batch (size-dependent fast paths switch on at round numbers)
+            steps.append([k, draw(gen.points()), draw(st.sampled_from([1000, 1000, 1024, 1100])), draw(st.booleans())])
         else:
             steps.append([k])
-    return {"n": n, "auto_index": draw(st.booleans()), "steps": steps, "flush": draw(st.sampled_from([True, True, False]))}
+    return {"n": n, "auto_index": draw(st.booleans()), "steps": steps, "flush": draw(st.sampled_from([True, True, False])), "dialect": draw(st.sampled_from([None, None, None, "unix"]))}
 
 
 def run_case(case, ctx, acc):
@@ -65,8 +68,10 @@ def run_case(case, ctx, acc):
     info = {"nontrivial": False}
     try:
         paths = {"big": os.path.join(d, "big.csv"), "twin": os.path.join(d, "twin.csv")}
-        write_rows(paths["big"], case["n"])
-        write_rows(paths["twin"], 0)
+        dialect = case.get("dialect")
+        dkw = {"dialect": dialect} if dialect else {}
+        write_rows(paths["big"], case["n"], dialect)
+        write_rows(paths["twin"], 0, dialect)
         dbs, worlds = {}, {}
         for name in ("big", "twin"):
             worlds[name] = iolayer.World(paths[name], mode="record")
@@ -75,7 +80,7 @@ def run_case(case, ctx, acc):
             w = worlds[name]
             with iolayer.installed(w):
                 flush = case.get("flush", True)
-                db = TinyFlux(paths[name], auto_index=case["auto_index"], flush_on_insert=flush)
+                db = TinyFlux(paths[name], auto_index=case["auto_index"], flush_on_insert=flush, **dkw)
                 inserted = []
                 initial = w.disk()
                 try:
@@ -83,21 +88,24 @@ def run_case(case, ctx, acc):
                     early = False
                     for si, st_ in enumerate(case["steps"]):
                         k = st_[0]
-                        if k in ("insert", "insert_ooo", "insert_multiple"):
-                            pts = [st_[1]] if k != "insert_multiple" else st_[1]
+                        if k in ("insert", "insert_ooo", "insert_multiple", "insert_bulk"):
+                            if k == "insert_bulk":
+                                pts = [dict(st_[1], tags=dict(st_[1]["tags"], j=str(j))) for j in range(st_[2])]
+                            else:
+                                pts = [st_[1]] if k != "insert_multiple" else st_[1]
                             pts = [dict(p) for p in pts]
                             if k == "insert":
                                 pts[0]["time"] = latest = latest + timedelta(seconds=1)
-                            elif k == "insert_multiple" and st_[3]:
+                            elif (k == "insert_multiple" and st_[3]) or k == "insert_bulk":
                                 for p in pts:
                                     p["time"] = latest = latest + timedelta(seconds=1)
                             ooo = k == "insert_ooo" or (k == "insert_multiple" and not st_[3])
-                            compact = st_[2]
+                            compact = st_[2] if k != "insert_bulk" else st_[3]
                             before = w.disk()
                             e0 = len(w.events)
                             w0 = len(w.written)
                             try:
-                                if k == "insert_multiple":
+                                if k in ("insert_multiple", "insert_bulk"):
                                     db.insert_multiple([gen.to_point(p) for p in pts], compact_key_prefixes=compact)
                                 else:
                                     db.insert(gen.to_point(pts[0]), compact_key_prefixes=compact)
@@ -128,7 +136,7 @@ def run_case(case, ctx, acc):
                             # check does not pin the number formatting), and nothing else may have been written
                             tail = after[len(before):]
                             try:
-                                dec = csvref.decode(tail)
+                                dec = csvref.decode(tail, None, dkw)
                             except Exception as e:
                                 raise Violation("appended-bytes", case, "[%s n=%d] step %d %s appended bytes that do not decode as rows: %r (%r)" % (name, case["n"], si, k, tail[:200], e))
                             if dec != exp_pts:
@@ -157,13 +165,17 @@ def run_case(case, ctx, acc):
                         elif k == "reindex":
                             db.reindex()
                             early = False
+                        elif k == "reopen":
+                            db.close()
+                            db = TinyFlux(paths[name], auto_index=case["auto_index"], flush_on_insert=flush, **dkw)
+                            early = False
                 finally:
                     db.close()
                 final = w.disk()
                 ok = final.startswith(initial)
                 if ok:
                     try:
-                        ok = csvref.decode(final[len(initial):]) == inserted
+                        ok = csvref.decode(final[len(initial):], None, dkw) == inserted
                     except Exception:
                         ok = False
                 if not ok:
